@@ -69,18 +69,9 @@ def run(cx):
     cx.ob("R20.component-prefix", rm.id + "|component-wise", bool(path_prefix) and not str_prefix,
           "sources under a removed folder are selected by a character prefix: removing `src/a` also removes the "
           "sources of `src/ab`", rm.loc())
-    # folder rename: remove old before reading new
-    hf = fb.one(r"source_files::handle_update_source_folder$")
-    sws = [s for s in discr_switches(hf) if (s["adt"] or "").endswith("SourceEventKind")]
-    if len(sws) != 1 or "Rename" not in sws[0]["arms"]:
-        raise AnchorError("handle_update_source_folder: match over SourceEventKind not found")
-    rn = reachable_from(hf, sws[0]["arms"]["Rename"])
-    rmv = [b for b in rn if blk_calls(hf.blocks[b], r"remove_iso_literals_from_folder$")]
-    rd = [b for b in rn if blk_calls(hf.blocks[b], r"read_iso_literals_from_folder$")]
-    cx.ob("R20.component-prefix", hf.id + "|rename-removes-before-reading", bool(rmv) and bool(rd) and all(
-        any(hf.dominates(a, b) for a in rmv) for b in rd),
-        "on a folder rename the new folder is read before the old folder's sources are removed: when the new name "
-        "extends the old one the freshly read sources are removed again", hf.loc())
+    # (not judged) the order of "remove old folder / read new folder" on a folder rename: with component-wise
+    # matching a renamed folder can never be a path-prefix of its old name, so either order gives the same result
+    # (a seeded change that swapped the order stopped being observable once the prefix defect was repaired).
     # ---- R20.all-kinds-handled ---------------------------------------------------------------------
     us = fb.one(r"source_files::update_sources$")
     n = 0
@@ -106,7 +97,10 @@ def run(cx):
     cx.ob("R20.rewrite-replaces", ii.id + "|stores-on-every-path", bool(st) and bool(mp) and p1 is None and p2 is None,
           "insert_iso_literal can return without storing the new content: a file rewritten so that it no longer looks "
           "like a source keeps its old literals in watch mode", ii.loc(), detail=fmt_path(ii, p1 or p2) if (p1 or p2) else None)
-    # ---- R20.watch-survives (coroutine MIR) -------------------------------------------------------------
+    watch_rule(cx, fb, "R20.watch-survives")
+
+
+def watch_rule(cx, fb, rule):
     w = fb.one(r"watch::handle_watch_command::\{closure#0\}$")
     usc = [t for t in w.calls() if term_calls(t, r"source_files::update_sources$")]
     cmp_ = [b.i for b in w.blocks if blk_calls(b, r"with_duration::WithDuration::<T>::new$|batch_compile::compile$")]
@@ -132,7 +126,7 @@ def run(cx):
         if any(s.rv == "aggregate" and s.j.get("agg") == "closure" and "handle_watch_command" in s.j.get("def", "") for s in blk.stmts) and b != err_t:
             compiles = True
         work += blk.term.succs()
-    cx.ob("R20.watch-survives", w.id + "|no-compile-after-failed-update", not compiles,
+    cx.ob(rule, w.id + "|no-compile-after-failed-update", not compiles,
           "after update_sources reported an error the loop goes on to compile: the database is only partly updated "
           "(the events of a batch are applied independently), so artifacts are written for a state that is not the "
           "state of the files", w.loc(usc[0].line))
